@@ -168,10 +168,9 @@ def target_of(an, prog, e):
     # the conversion written in line (`match map.get(&K) { Some(v) => v.try_into().ok(), None => None }`)
     for n in find(e, lambda n: n[0] == "call" and n[2] is not None and n[2].nsyn in ("std::convert::TryInto::try_into", "std::convert::TryFrom::try_from")):
         sa = n[2].syn_args or []
-        if n[2].nsyn.endswith("try_into") and len(sa) > 1:
-            return sa[1]
-        if n[2].nsyn.endswith("try_from") and sa:
-            return sa[0]
+        tt = sa[1] if n[2].nsyn.endswith("try_into") and len(sa) > 1 else (sa[0] if n[2].nsyn.endswith("try_from") and sa else None)
+        if tt and not re.match(r"^[A-Z]\w*$", tt):      # a bare type parameter of an inlined generic helper says nothing
+            return tt
     for c in find(e, lambda n: n[0] == "closure"):
         b = prog.body(c[1])
         if b is None:
